@@ -182,6 +182,15 @@ def op_div(ctx, rng):
             return
         if not check_same(ctx, "div", [a], before):
             return
+        if n <= ln + 3:
+            # the caller may do what it likes with the list it got; a later division is unaffected
+            pieces.reverse()
+            pieces.clear()
+            again = a / n
+            ctx.count("op_div_repeated_after_caller_mutated_result")
+            if again is pieces or [len(bytes(p)) // bps for p in again] != sizes:
+                ctx.violation("div-result-shared-between-calls", {"case": case, "first_sizes": sizes, "second_sizes": [len(bytes(p)) // bps for p in again]})
+                return
 
 
 def op_mismatch(ctx, rng):
@@ -212,6 +221,60 @@ def op_mismatch(ctx, rng):
         ctx.violation(f"regions-differing-in-{which}-compare-equal", {"case": case})
 
 
+def _crc32_colliding_pair():
+    """two different 8-byte strings with the same CRC-32 (birthday search, ~80k tries): equality decided through a checksum
+    instead of the bytes would call them equal."""
+    import random
+    import zlib
+
+    r = random.Random(20260927)
+    seen = {}
+    while True:
+        b = r.randbytes(8)
+        c = zlib.crc32(b)
+        if c in seen and seen[c] != b:
+            return seen[c], b
+        seen[c] = b
+
+
+_COLLIDING = []
+
+
+def op_optimised_interpreter(ctx):
+    """the same constructor check in an interpreter started with -O (assert statements and __debug__ blocks are gone there)."""
+    import os
+    import subprocess
+    import sys
+
+    code = ("import sys; from auditok import AudioRegion\n"
+            "from auditok.exceptions import AudioParameterError\n"
+            "bad = 0\n"
+            "for args in ((b'abc', 8000, 2, 1), (b'abcde', 8000, 2, 2), (b'a', 10, 4, 1)):\n"
+            "    for kw in ({}, {'start': 0.0}):\n"
+            "        try:\n"
+            "            AudioRegion(*args, **kw); bad += 1\n"
+            "        except AudioParameterError:\n"
+            "            pass\n"
+            "a = AudioRegion(b'abcd', 8000, 2, 1)\n"
+            "try:\n"
+            "    a.data = b''; bad += 100\n"
+            "except Exception:\n"
+            "    pass\n"
+            "sys.exit(bad)\n")
+    env = dict(os.environ, PYTHONPATH=os.environ.get("VERIF_REPO", "/repo"), PYTHONDONTWRITEBYTECODE="1")
+    for flags in (["-O"], ["-OO"]):
+        ctx.count("optimised_interpreter_runs")
+        ctx.evaluations += 1
+        try:
+            r = subprocess.run([sys.executable] + flags + ["-c", code], env=env, capture_output=True, timeout=120)
+        except subprocess.TimeoutExpired:
+            ctx.count("inconclusive_runs")
+            continue
+        if r.returncode != 0:
+            ctx.violation("construction-or-immutability-check-gone-under-python" + "".join(flags), {"case": {"op": "python " + " ".join(flags)}, "exit": r.returncode,
+                                                                                             "stderr": r.stderr.decode("utf-8", "replace")[-300:]})
+
+
 class _SubRegion(AudioRegion):
     """a trivial user subclass: still a region with the same bytes and parameters"""
 
@@ -235,6 +298,15 @@ def op_eq(ctx, rng):
         other = AudioRegion(bytes(d), *fmt)
         if (a == other) is not False:
             ctx.violation("eq-true-for-different-bytes", {"case": {"op": "eq", "a": desc(a)}})
+    if not _COLLIDING:
+        _COLLIDING.extend(_crc32_colliding_pair())
+    x, y = _COLLIDING
+    ctx.count("checksum_colliding_pairs_compared")
+    for fmt_ in ((8000, 1, 1), (16000, 2, 2), (10, 4, 1)):
+        rx, ry = AudioRegion(x, *fmt_), AudioRegion(y, *fmt_)
+        if (rx == ry) is not False or (rx * 3 == ry * 3) is not False or (sum(rx / 2) == sum(ry / 2)) is not False:
+            ctx.violation("eq-true-for-different-bytes", {"case": {"op": "eq-crc32-colliding", "x": x.hex(), "y": y.hex(), "fmt": list(fmt_)}})
+            break
     if (a == bytes(a.data)) is True or (a == 0) is True:
         ctx.violation("eq-true-for-non-region", {"case": {"op": "eq", "a": desc(a)}})
 
@@ -347,6 +419,8 @@ OPS = [op_add, op_sum, op_mul, op_join, op_div, op_mismatch, op_eq, op_silence, 
 
 def run_shard(ctx, upto=None):
     conf = TIERS[ctx.tier]
+    if upto is None and ctx.shard == 0:
+        op_optimised_interpreter(ctx)
     rng = ctx.rng("ops")
     for i in range(conf["random"] if upto is None else upto + 1):
         op = OPS[i % len(OPS)]
@@ -372,5 +446,5 @@ def replay(ctx, case):
 def inconclusive(merged, tier):
     c = merged["counters"]
     need = ["op_add", "op_sum", "op_mul", "op_join", "op_div", "op_div_n_greater_than_len", "op_mismatch", "parameter_errors_observed",
-            "op_eq", "op_make_silence", "op_construct_partial", "op_assignment", "op_tree"]
+            "op_eq", "op_make_silence", "op_construct_partial", "op_assignment", "op_tree", "optimised_interpreter_runs", "checksum_colliding_pairs_compared", "op_div_repeated_after_caller_mutated_result"]
     return [f"monitor never observed {k}" for k in need if c.get(k, 0) == 0]
